@@ -333,7 +333,7 @@ def run_thread_case(case, sudachipy, vb, sched=None):
                 cls = "result-differs-from-sequential"
             return {"case": case["case"], "ok": False, "op": r["op"], "class": cls, "site": r["site"],
                     "detail": dict(r["detail"], thread=tid), "schedule": choices, "stats": stats}
-    return {"case": case["case"], "ok": True, "stats": stats, "schedule_hash": hash(bytes(choices)) & 0xffffffff, "schedule_len": len(choices)}
+    return {"case": case["case"], "ok": True, "stats": stats, "schedule_hash": __import__("zlib").crc32(bytes(choices)), "schedule_len": len(choices)}
 
 
 def child_threads(path, stage, baton, first, step, replay_sched=None):
